@@ -11,6 +11,7 @@ import json
 import math
 import os
 import struct
+import sys
 from typing import Any
 
 
@@ -209,3 +210,25 @@ class time_limit:
         signal.setitimer(signal.ITIMER_REAL, 0)
         signal.signal(signal.SIGALRM, self._old)
         return False
+
+
+# --- process environment as a scenario knob ------------------------------------------
+# The zygotes are started *without* UTF-8 mode (PYTHONUTF8=0, PYTHONCOERCECLOCALE=0) under
+# LC_ALL=C.UTF-8, so the default text encoding of open() follows LC_CTYPE at the time of the
+# call; a run whose scenario says {"locale": "C"} switches its own (forked) process to the
+# POSIX locale, where open() without encoding= is strict ASCII: what the library meets on a
+# legacy-locale deployment.
+LOCALES = {"utf8": "C.UTF-8", "C": "C"}
+
+
+def apply_process_env(scenario: dict, ctx) -> None:
+    loc = scenario.get("locale")
+    if not loc:
+        return
+    import locale
+
+    if sys.flags.utf8_mode:
+        raise HarnessError("zygote runs in UTF-8 mode: the locale knob would have no effect")
+    locale.setlocale(locale.LC_CTYPE, LOCALES[loc])
+    ctx.log("locale", loc, locale.getencoding())
+    ctx.probe("locale_" + loc)
